@@ -52,9 +52,9 @@ def run(ctx, replay=None):
     lines = core.read_ndjson(tf)
     for ln, why in mism:
         e = lines[ln - 1]
-        n, pool = e.get("big", e["n"]), e["pool"]
+        n, pool = (e.get("fast") or e.get("big") or e["n"]), e["pool"]
         pc = "none" if pool == 0 and not e.get("big") else ("<=0" if pool <= 0 else "<n" if pool < n else ">=n")
-        ctx.report("%s [pool %s, %s, %s, n%s]" % (why, pc, "RandomOrder" if e["random"] else "ordered", "gated" if e["gate"] else "free", ">1000" if n > 1000 else "<=64"),
+        ctx.report("%s [pool %s, %s, %s, n%s]" % (why, pc, "RandomOrder" if e["random"] else "ordered", "gated" if e["gate"] else ("trivial f" if e.get("fast") else "free"), ">1000" if n > 1000 else "<=1000" if n > 64 else "<=64"),
                    "PMap call %s: %s" % (json.dumps({k: e[k] for k in ("n", "pool", "random", "gate", "maxParked", "kind")}), why), {"component": "c16", "call": {k: e[k] for k in ("n", "pool", "random", "gate")}})
     ctx.sample([l for l in lines if l["n"] == 3 and l["gate"]][1])
     ctx.assumptions += [
